@@ -32,11 +32,24 @@ TRIG = {('sin', 'cc'): 'sin_c', ('cos', 'cc'): 'cos_c', ('sin', 'bb'): 'sin_b', 
 class ExprTr:
     """expression translator; fvars: names of field variables, nvars: names of nat variables"""
 
-    def __init__(self, fvars, nvars, alias=None):
+    def __init__(self, fvars, nvars, alias=None, zexp=False):
         self.fvars = set(fvars)
         self.nvars = set(nvars)
         self.alias = alias or {}
         self.used = set()
+        self.zexp = zexp          # exponents are integers (may be negative): use zpw
+
+    def zint(self, e):
+        """integer-valued expression -> Coq Z term"""
+        if isinstance(e, ast.Constant) and isinstance(e.value, int):
+            return '(%d)' % e.value
+        if isinstance(e, ast.Name) and e.id in self.nvars:
+            self.used.add(e.id)
+            return '(Z.of_nat %s)' % e.id
+        if isinstance(e, ast.BinOp) and isinstance(e.op, (ast.Add, ast.Sub, ast.Mult)):
+            op = {ast.Add: '+', ast.Sub: '-', ast.Mult: '*'}[type(e.op)]
+            return '(%s %s %s)' % (self.zint(e.left), op, self.zint(e.right))
+        fail(e, 'unsupported integer expression')
 
     def nat(self, e):
         """integer-valued expression -> (coq nat term, python lambda source)"""
@@ -73,6 +86,8 @@ class ExprTr:
                 base = self.fld(e.left)
                 if isinstance(e.right, ast.UnaryOp):
                     fail(e, 'negative exponent')
+                if self.zexp:
+                    return '(zpw %s %s%%Z)' % (base, self.zint(e.right))
                 return '(pw %s %s)' % (base, self.nat(e.right))
             if isinstance(e.op, (ast.Add, ast.Sub, ast.Mult, ast.Div)):
                 # an all-integer sub-expression used as a field element
@@ -80,6 +95,9 @@ class ExprTr:
                     return '(ofnat %s)' % self.nat(e)
                 op = {ast.Add: '+', ast.Sub: '-', ast.Mult: '*', ast.Div: '/'}[type(e.op)]
                 return '(%s %s %s)' % (self.fld(e.left), op, self.fld(e.right))
+        if isinstance(e, ast.Call) and isinstance(e.func, ast.Attribute) and isinstance(e.func.value, ast.Name) \
+                and e.func.value.id == 'sym' and e.func.attr == 'factorial' and len(e.args) == 1:
+            return '(ofnat (fact %s))' % self.nat(e.args[0])
         if isinstance(e, ast.Call) and isinstance(e.func, ast.Attribute) and isinstance(e.func.value, ast.Name) \
                 and e.func.value.id == 'sym' and e.func.attr in ('sin', 'cos') and len(e.args) == 1:
             key = (e.func.attr, ast.unparse(e.args[0]))
@@ -315,8 +333,96 @@ class DFTTable:
         return '\n'.join(out) + '\n'
 
 
+class IZTable:
+    """repeated-pole formulas of InverseZTransformer.ratfun (lcapy/inverse_ztransform.py):
+    the term added to `sum_p` for a real pole and the `prefac` of a conjugate pair,
+    together with the statements that maintain `bino` (compared textually)"""
+
+    def __init__(self, repo):
+        self.path = os.path.join(repo, 'lcapy', 'inverse_ztransform.py')
+        src = open(self.path).read()
+        self.sha = hashlib.sha256(src.encode()).hexdigest()
+        tree = ast.parse(src)
+        fn = find_class_method(tree, 'InverseZTransformer', 'ratfun')
+        self.entries = {}
+        loops = [n_ for n_ in ast.walk(fn) if isinstance(n_, ast.For) and ast.unparse(n_.target) == 'i']
+        real = [l for l in loops if ast.unparse(l.iter) == 'range(1, o + 1)']
+        pair = [l for l in loops if ast.unparse(l.iter) == 'range(1, o1 + 1)']
+        if len(real) != 1 or len(pair) != 1:
+            fail(fn, 'repeated-pole loops of ratfun not found')
+        # --- real pole of order o
+        want = ['m = o - i', 'derivative = all_derivatives[m]', 'derivative = sym.expand(derivative.subs(z, p))',
+                'r = sym.simplify(derivative) / sym.factorial(m)']
+        body = real[0].body
+        if [ast.unparse(s_) for s_ in body[:4]] != want or len(body) != 5 or not isinstance(body[4], ast.If) \
+                or ast.unparse(body[4].test) != 'p == 0':
+            fail(body[0], 'real repeated-pole loop changed')
+        if [ast.unparse(s_) for s_ in body[4].body] != ['cresult += r * UnitImpulse(n - i + 1)']:
+            fail(body[4], 'pole at zero branch changed')
+        el = body[4].orelse
+        if len(el) != 2 or not isinstance(el[0], ast.AugAssign) or not isinstance(el[0].op, ast.Add) \
+                or ast.unparse(el[0].target) != 'sum_p' or ast.unparse(el[1]) != 'bino *= n - i + 1':
+            fail(el[0] if el else body[4], 'accumulation of sum_p / update of bino changed')
+        t = ExprTr(['r', 'bino', 'p'], ['i'], zexp=True)
+        self.entries['izt_real_term'] = (['(r bino p : K)', '(i : nat)'], t.fld(el[0].value), el[0].lineno)
+        self.check_context(fn, real[0], ['bino = 1', 'sum_p = 0'], 'uresult += sym.simplify(sum_p * p ** n)')
+        # --- conjugate pair of order o1
+        body = pair[0].body
+        heads = [ast.unparse(s_) for s_ in body]
+        want = ['m = o1 - i', 'derivative = all_derivatives_1[m]', 'r1 = derivative.subs(z, p1) / sym.factorial(m)', None,
+                'r1 = r1.rewrite(sym.exp).simplify()', 'sum_b += prefac * r1 * sym.exp(sym.I * omega_0 * (1 - i))', 'bino *= n - i + 1']
+        if len(heads) != len(want) or any(w_ is not None and h_ != w_ for h_, w_ in zip(heads, want)):
+            fail(body[0], 'conjugate-pair loop changed')
+        pf = body[3]
+        if not isinstance(pf, ast.Assign) or ast.unparse(pf.targets[0]) != 'prefac':
+            fail(pf, 'expected prefac = ...')
+        t = ExprTr(['bino', 'lam'], ['i'], zexp=True)
+        self.entries['izt_pair_prefac'] = (['(bino lam : K)', '(i : nat)'], t.fld(pf.value), pf.lineno)
+        self.check_context(fn, pair[0], ['bino = 1', 'sum_b = 0'], None)
+        tail = [ast.unparse(s_) for s_ in ast.walk(fn) if isinstance(s_, ast.AugAssign) and 'bb * sym.sin' in ast.unparse(s_)]
+        if tail != ['uresult += 2 * (aa * sym.cos(omega_0 * n) - bb * sym.sin(omega_0 * n)) * lam ** n']:
+            fail(fn, 'assembly of the conjugate-pair result changed')
+        aa = [ast.unparse(s_) for s_ in ast.walk(fn) if isinstance(s_, ast.Assign) and ast.unparse(s_.targets[0]) in ('aa', 'bb')]
+        if aa != ['aa = sym.simplify(sym.re(sum_b))', 'bb = sym.simplify(sym.im(sum_b))']:
+            fail(fn, 'aa / bb of the conjugate-pair result changed')
+        # simple poles
+        simple = [ast.unparse(s_) for s_ in ast.walk(fn) if isinstance(s_, ast.AugAssign) and ast.unparse(s_.value) == 'r * p ** n']
+        if simple != ['uresult += r * p ** n']:
+            fail(fn, 'simple pole term changed')
+
+    @staticmethod
+    def check_context(fn, loop, inits, after):
+        """the statements `inits` precede the loop in its block and `after` follows it"""
+        for node in ast.walk(fn):
+            for fld_ in ('body', 'orelse'):
+                blk = getattr(node, fld_, None)
+                if isinstance(blk, list) and loop in blk:
+                    k = blk.index(loop)
+                    before = [ast.unparse(s_) for s_ in blk[:k]]
+                    for it in inits:
+                        if it not in before:
+                            fail(loop, 'initialisation `%s` not found before the loop' % it)
+                    if after is not None and (k + 1 >= len(blk) or ast.unparse(blk[k + 1]) != after):
+                        fail(loop, 'statement after the loop changed, expected `%s`' % after)
+                    return
+        fail(loop, 'loop context not found')
+
+    def coq(self):
+        out = ['(* GENERATED from %s (sha256 %s) by tools/tr_ztable.py.  Do not edit. *)' % (self.path, self.sha),
+               'Require Import LT.FieldSec LT.SeqFilter LT.SeqDFT LT.SeqZ.', 'Local Open Scope F_scope.',
+               'Section IZTableGen.', 'Variable K : fld.', 'Notation pw := (@pw K). Notation ofnat := (@ofnat K). Notation zpw := (@zpw K).']
+        for nm, (params, body, line) in self.entries.items():
+            out.append('(* inverse_ztransform.py line %d *)' % line)
+            out.append('Definition %s %s : K := %s.' % (nm, ' '.join(params), body))
+        out.append('End IZTableGen.')
+        for nm in self.entries:
+            out.append('Arguments %s {K}.' % nm)
+        return '\n'.join(out) + '\n'
+
+
 if __name__ == '__main__':
     import sys
     repo = sys.argv[1] if len(sys.argv) > 1 else '/repo'
     print(ZTable(repo).coq())
     print(DFTTable(repo).coq())
+    print(IZTable(repo).coq())
